@@ -249,3 +249,59 @@ Proof using HW HNE HSS.
 Qed.
 
 End Full.
+
+(* ---------- Url::query_pairs_mut sessions ---------- *)
+Theorem qpm_inv03 dbg u ops u' : inv03 u -> Forall ok_or_space (ser u) -> Forall op_ok ops ->
+  query_pairs_session dbg u ops = Some u' -> inv03 u' /\ Forall ok_or_space (ser u').
+Proof.
+  intros ([W HT] & A & P & E) Hoks Hops H.
+  assert (Forall (fun b => b < 128) (ser u)) as Hasc.
+  { eapply Forall_impl; [|exact Hoks]. intros b Hb. unfold ok_or_space in Hb. lia. }
+  destruct (session_shape dbg u W Hasc ops Hops) as (str' & H1 & F1 & F2 & F3 & _ & F5).
+  rewrite H in H1. inversion H1; subst u'. clear H1.
+  assert (Hns : Forall (fun c => negb (c =? 35) = true) (nskipn (C15_Url.path_end u + 1) str')).
+  { apply (F5 (fun c => negb (c =? 35) = true) alpha_not_sharp). apply old_query_no_sharp. exact W. }
+  assert (W' : wf_b (edited u str') = true) by (eapply wf_edited; eassumption).
+  assert (Eh : host_str (edited u str') = host_str u) by (eapply host_str_edited; eassumption).
+  assert (Es : scheme (edited u str') = scheme u) by (eapply scheme_edited; eassumption).
+  split.
+  - split; [split; [exact W' | exact (host_text_ok_of_host_str u _ W W' Eh eq_refl eq_refl eq_refl HT)]|].
+    split; [|split; [exact (pn_same u _ Es eq_refl P) | exact (he_same u _ Es Eh E)]].
+    intros Hs'. pose proof (spb_same u _ W W' Es) as X. unfold spb in X. rewrite X in Hs'. exact (A Hs').
+  - unfold edited. cbn [ser]. apply Forall_app. split.
+    + apply (forall_split_at ok_or_space str' (C15_Url.path_end u) 63 F3).
+      * rewrite F2. apply Forall_nfirstn. exact Hoks.
+      * unfold ok_or_space. lia.
+      * apply (F5 ok_or_space (fun c Hc => ok_byte_or_space c (form_alpha_ok_byte c Hc))).
+        unfold old_query. destruct (query_start u); [|constructor]. apply Forall_nfirstn, Forall_nskipn. exact Hoks.
+    + unfold frag_tail. destruct (fragment_start u); [|constructor].
+      constructor; [unfold ok_or_space; lia | apply Forall_nskipn; exact Hoks].
+Qed.
+
+(* ---------- every record of C02's Reachable3 ---------- *)
+Section Reach3.
+Variable dbg : bool.
+Variable hp hpo : list N -> result host.
+Variable hd : host -> list N.
+Hypothesis HW : HostWf hp hpo hd.
+Hypothesis HNE : host_nonempty hp hpo.
+Hypothesis HIPW : IpWf hd.
+Hypothesis HOK : HostOK hp hpo hd.
+Hypothesis HIP : IpOK hd.
+Hypothesis HSS : SessNoSS dbg.
+
+Theorem reach3_inv u : Reachable3 dbg hp hpo hd u -> inv03 u /\ Forall ok_or_space (ser u).
+Proof using HW HNE HIPW HOK HIP HSS.
+  induction 1 as [ovr input u Hu Hp Hk | ovr b input u Rb IHb Hu Hp Hk | u o u' R IH Ha Hk H Hk' | u ops u' R IH Hops H Hk].
+  - split; [exact (parse_url_inv03 dbg hp hpo hd ovr None input u HW I Hp)|].
+    exact (parse_url_okl ok_or_space ok_byte_or_space dbg hp hpo hd ovr HOK None input u (fun _ => ok_or_space_32) Hp I).
+  - destruct IHb as [Ib Ob]. split; [exact (parse_url_inv03 dbg hp hpo hd ovr (Some b) input u HW Ib Hp)|].
+    exact (parse_url_okl ok_or_space ok_byte_or_space dbg hp hpo hd ovr HOK (Some b) input u (fun _ => ok_or_space_32) Hp Ob).
+  - destruct IH as [Iu Ou]. split.
+    + apply (inv03_step dbg hp hpo hd HW (proj1 HNE) HIPW u o u' Iu Ha); [|exact H].
+      exact (known_k dbg hp hpo hd HW HNE HSS u o u' Iu Ha Hk H).
+    + rewrite apply_op5 in H.
+      exact (C05_History.apply_op_okl dbg hp hpo hd ok_or_space ok_byte_or_space ok_or_space_32 HOK HIP u (op5 o) u' (op_valid5 o Ha) H Ou).
+  - destruct IH as [Iu Ou]. exact (qpm_inv03 dbg u ops u' Iu Ou Hops H).
+Qed.
+End Reach3.
